@@ -184,6 +184,8 @@ func (r *runner) execute() string {
 			ok = r.opRefresh(step, last)
 		case op == "restore":
 			ok = r.opRestore(step, last)
+		case op == "forget-chain-key":
+			ok = r.opForgetChainKey(step)
 		case op == "sign":
 			ok = r.opSign(step, last)
 		case strings.HasPrefix(op, "derive:"):
@@ -444,6 +446,72 @@ func (r *runner) refreshOracle(step int, pre *hist.Facts, retained, nw *hist.Mat
 						if len(o.Results) > 0 {
 							r.violate("stale-signer-yields-signature", fmt.Sprintf("online phase, signers %s, %s on its configuration of epoch %q, the others on %s (presignature made with %s): %s", names(S), stale, r.ln.names[ei], epochName, epochName, holders(o, S, r.ln.pub, msg)))
 						}
+					}
+				}
+			}
+		}
+	}
+	// 7c. one party is an epoch behind INSIDE a refresh: it enters the next refresh on its restored
+	// pre-refresh material, the others on the new one.  The session may fail; if it gives everybody a
+	// result, nobody may report another group key, and whatever a signing session on that output
+	// returns must be a signature under the original key.
+	if len(r.ln.epochs) > 0 && !(sc.T == 0) && (sc.Proto != hist.CMP || vkit.Thorough()) {
+		es := r.ln.epochs[len(r.ln.epochs)-1]
+		for _, stale := range ids {
+			nm, err1 := snap.Restore()
+			om, err2 := es.Restore()
+			if err1 != nil || err2 != nil {
+				continue
+			}
+			switch sc.Proto {
+			case hist.Frost:
+				nm.Frost[stale] = om.Frost[stale]
+			case hist.Taproot:
+				nm.Tap[stale] = om.Tap[stale]
+			case hist.CMP:
+				nm.CMP[stale] = om.CMP[stale]
+			default:
+				if stale == "a" {
+					nm.DR = om.DR
+				} else {
+					nm.DS = om.DS
+				}
+			}
+			o := r.run(nm.RefreshSpec(), step, "refresh-stale-"+string(stale))
+			r.stats["stale_refresh_sessions"]++
+			if o.Panic != "" {
+				r.panicked("refresh-with-stale-party", o.Panic)
+				continue
+			}
+			if len(o.Results) != len(ids) {
+				continue
+			}
+			m3, err := nm.FromResults(o.Results)
+			if err != nil {
+				continue
+			}
+			f3, err := m3.Facts()
+			if err != nil {
+				continue
+			}
+			moved := false
+			for _, id := range f3.IDs {
+				if !f3.Pub[id].Equal(r.ln.pub) {
+					moved = true
+					r.violate("key-changed", fmt.Sprintf("refresh in which %s was still on the material of epoch %q while the others were on %s: it completed and %s now reports the group key %x instead of %x", stale, r.ln.names[len(r.ln.names)-1], epochName, id, f3.Pub[id].Compressed(), r.ln.pub.Compressed()))
+					break
+				}
+			}
+			if moved {
+				continue
+			}
+			S := historySigners(sc, ids)
+			so := r.run(m3.SignSpec(S, msg, nil), step, "sign-after-refresh-stale-"+string(stale))
+			for _, id := range S {
+				if res, ok := so.Results[id]; ok {
+					if err := hist.CheckSigned(&sess.Outcome{Results: map[party.ID]interface{}{id: res}}, []party.ID{id}, r.ln.pub, msg); err != nil {
+						r.violate("stale-signer-yields-signature", fmt.Sprintf("after a refresh with %s an epoch behind, signing returns at %s something that is not a signature under the group key: %v", stale, id, err))
+						break
 					}
 				}
 			}
@@ -791,6 +859,29 @@ func (r *runner) opSign(step int, last bool) bool {
 	return err == nil
 }
 
+// opForgetChainKey: every party's configuration loses its (optional) chain key; secret shares, public
+// tables and the group key are untouched, so the key line continues with a new snapshot.
+func (r *runner) opForgetChainKey(step int) bool {
+	if r.cur.CMP == nil {
+		return false
+	}
+	for _, c := range r.cur.CMP {
+		c.ChainKey = nil
+	}
+	f, err := r.cur.Facts()
+	var snap *hist.Snap
+	if err == nil {
+		snap, err = r.cur.Snapshot()
+	}
+	if err != nil {
+		r.violate("sharing:readable", "configuration without chain key: "+err.Error())
+		return false
+	}
+	r.ln = &line{pub: r.ln.pub, epochs: []*hist.Snap{snap}, facts: []*hist.Facts{f}, names: []string{fmt.Sprintf("forget-chain-key@%d", step)}}
+	r.refreshed = false
+	return true
+}
+
 func (r *runner) opDerive(step int, last bool, i uint32) (ok, pruned bool) {
 	d := r.cur.Derive(i)
 	if len(d.Panics) > 0 {
@@ -922,7 +1013,16 @@ func main() {
 		if !vkit.Want(sc.String()) {
 			continue
 		}
-		for _, h := range histories(alphabet(), depth(sc)) {
+		hs := histories(alphabet(), depth(sc))
+		if sc.Proto == hist.CMP {
+			// a key whose stored configurations carry no chain key (it is optional: Validate, Refresh, Sign and the
+			// decoder accept its absence, and the refresh is what gives such a key its chain key)
+			hs = append(hs, []string{"forget-chain-key", "refresh"}, []string{"forget-chain-key", "sign"})
+			if vkit.Thorough() {
+				hs = append(hs, []string{"forget-chain-key", "refresh", "refresh"}, []string{"forget-chain-key", "restore", "refresh"}, []string{"forget-chain-key", "refresh", "derive:0"})
+			}
+		}
+		for _, h := range hs {
 			n++
 			if !vkit.Mine(n) {
 				continue
